@@ -22,6 +22,8 @@ type LocalServer struct {
 	Type     model.FeatureTypeType
 	Writable model.FunctionType // announced read+write
 	ReadOnly model.FunctionType // announced read only
+	// Unannounced is a function of the feature type that was never added to the feature
+	Unannounced model.FunctionType
 }
 
 type W struct {
@@ -37,10 +39,11 @@ var serverSpecs = []struct {
 	ft model.FeatureTypeType
 	rw model.FunctionType
 	ro model.FunctionType
+	un model.FunctionType
 }{
-	{model.FeatureTypeTypeMeasurement, model.FunctionTypeMeasurementListData, model.FunctionTypeMeasurementDescriptionListData},
-	{model.FeatureTypeTypeLoadControl, model.FunctionTypeLoadControlLimitListData, model.FunctionTypeLoadControlLimitDescriptionListData},
-	{model.FeatureTypeTypeElectricalConnection, model.FunctionTypeElectricalConnectionPermittedValueSetListData, model.FunctionTypeElectricalConnectionDescriptionListData},
+	{model.FeatureTypeTypeMeasurement, model.FunctionTypeMeasurementListData, model.FunctionTypeMeasurementDescriptionListData, model.FunctionTypeMeasurementConstraintsListData},
+	{model.FeatureTypeTypeLoadControl, model.FunctionTypeLoadControlLimitListData, model.FunctionTypeLoadControlLimitDescriptionListData, model.FunctionTypeLoadControlLimitConstraintsListData},
+	{model.FeatureTypeTypeElectricalConnection, model.FunctionTypeElectricalConnectionPermittedValueSetListData, model.FunctionTypeElectricalConnectionDescriptionListData, model.FunctionTypeElectricalConnectionParameterDescriptionListData},
 }
 
 // PeerEntities is the tree every peer announces (identical numbering on all peers).
@@ -70,7 +73,7 @@ func New(n int) *W {
 		f := w.AddLocalFeature(le, world.FeatSpec{Type: s.ft, Role: model.RoleTypeServer, Funcs: []world.FuncSpec{
 			{Fn: s.rw, Read: true, Write: true}, {Fn: s.ro, Read: true},
 		}})
-		w.Servers = append(w.Servers, LocalServer{F: f, Type: s.ft, Writable: s.rw, ReadOnly: s.ro})
+		w.Servers = append(w.Servers, LocalServer{F: f, Type: s.ft, Writable: s.rw, ReadOnly: s.ro, Unannounced: s.un})
 	}
 	w.LocalClient = w.AddLocalFeature(le, world.FeatSpec{Type: model.FeatureTypeTypeMeasurement, Role: model.RoleTypeClient})
 	w.LocalClient2 = w.AddLocalFeature(le, world.FeatSpec{Type: model.FeatureTypeTypeLoadControl, Role: model.RoleTypeClient})
@@ -81,7 +84,7 @@ func New(n int) *W {
 	f2 := w.AddLocalFeature(le2, world.FeatSpec{Type: s0.ft, Role: model.RoleTypeServer, Funcs: []world.FuncSpec{
 		{Fn: s0.rw, Read: true, Write: true}, {Fn: s0.ro, Read: true},
 	}})
-	w.Servers = append(w.Servers, LocalServer{F: f2, Type: s0.ft, Writable: s0.rw, ReadOnly: s0.ro})
+	w.Servers = append(w.Servers, LocalServer{F: f2, Type: s0.ft, Writable: s0.rw, ReadOnly: s0.ro, Unannounced: s0.un})
 	for i := 0; i < n; i++ {
 		w.AddPeer(fmt.Sprintf("ski-%d", i+1), fmt.Sprintf("d:_r:peer%d", i+1), PeerEntities())
 	}
